@@ -264,9 +264,22 @@ def rule_planar_inverse(prog: Program, rep: Report):
     from ..terms import Interp, mk_pow
     rep.rule("C01.planar", "planar layer with leaky-relu: inverse(y) = y + alpha*u^ with alpha(1 + s w.u^) + s(w.y + b) == 0 "
                            "(exact scalar identity using linearity of the dot product), so transform(inverse(y)) == y in "
-                           "each slope branch; the slope is selected from the sign of w.y + b", minimum=2)
+                           "each slope branch; the slope is selected from the sign of w.y + b; both inverse methods raise for any other activation", minimum=4)
     c = prog.cls("flowjax.bijections.planar._UnconditionalPlanar")
     site = method_site(prog, c, "inverse_and_log_det")
+    # the closed-form inverse is the leaky-relu one: for any other activation both inverse methods must refuse
+    from ..terms import mk_cmp as _mk_cmp
+    want_g = _mk_cmp("!=", ("attr", SELF, "activation"), C("leaky_relu"))
+    for mname in ("inverse", "inverse_and_log_det"):
+        itg = Interp(prog)
+        itg.eval_method(c, mname, [X, ("sym", "COND")])
+        gs = [g for g in itg.guards if g[0] == "raise-if" and not (len(g) > 4 and g[4])]
+        rep.check(any(equal(g[1], want_g) for g in gs), "C01.planar", method_site(prog, c, mname),
+                  f"planar:{mname}:refuses-non-leaky-activation",
+                  "raises unless activation == 'leaky_relu'",
+                  f"{mname} has no unconditional guard raising when activation != 'leaky_relu' (guards: "
+                  f"{[show(g[1], 80) for g in gs][:3]}): with tanh it would return the leaky-relu formula, which is not "
+                  f"the inverse of the tanh layer")
     r1 = bij.rank1_atoms(prog, c)
     I = bij.commute_rank1(method_term(prog, c, "inverse"), r1)
     U = bij.commute_rank1(Interp(prog).eval_method(c, "get_act_scale", []), r1)
